@@ -4,6 +4,7 @@ package main
 
 import (
 	"fmt"
+	"strconv"
 	"go/constant"
 	"go/token"
 	"go/types"
@@ -205,6 +206,23 @@ func (e *Env) evalIdent(name string) V {
 			}
 		}
 		e.fail("result used outside a postcondition")
+	}
+	if e.frame != nil && e.frame.fn != nil && strings.HasPrefix(name, "rangecount") {
+		// ghost: entries yielded so far by the (n-th) map iteration of this function
+		n := 1
+		if rest := strings.TrimPrefix(name, "rangecount"); rest != "" {
+			if v, err := strconv.Atoi(rest); err == nil {
+				n = v
+			} else {
+				n = 0
+			}
+		}
+		if n > 0 {
+			key := heapKeyGlobal(fmt.Sprintf("$range.%s.%d", fullFuncKey(e.frame.fn), n))
+			if _, ok := x.s.heapT[key]; ok || e.cur.heap[key] != "" {
+				return V{T: types.Typ[types.Int], S: x.heapGet(e.cur, key, types.Typ[types.Int])}
+			}
+		}
 	}
 	if e.frame != nil {
 		// inside old(...): a local variable (not a parameter) is not part of the entry heap -
